@@ -31,8 +31,15 @@ func MarshalLengthBytes(l int) []byte {
 
 // GetLengthFromASN returns the length of a slice of ASN1 encoded bytes from the ASN1 length header it contains.
 func GetLengthFromASN(b []byte) int {
+	if len(b) < 2 {
+		return 0
+	}
 	if int(b[1]) <= 127 {
 		return int(b[1])
+	}
+	if len(b) < 2+int(b[1])-128 {
+		// the length header itself is cut short
+		return 0
 	}
 	// The bytes that indicate the length
 	lb := b[2 : 2+int(b[1])-128]
@@ -47,7 +54,7 @@ func GetLengthFromASN(b []byte) int {
 
 // GetNumberBytesInLengthHeader returns the number of bytes in the ASn1 header that indicate the length.
 func GetNumberBytesInLengthHeader(b []byte) int {
-	if int(b[1]) <= 127 {
+	if len(b) < 2 || int(b[1]) <= 127 {
 		return 1
 	}
 	// The bytes that indicate the length
